@@ -27,6 +27,8 @@ CHECKS = {
             'generated chains x speed ratios x lengths (incl. unbounded sources) x owned schedules; bounds are observed to be attained'),
     'C16': ('exploration', T_SIM + 'differential sync vs async on identical inputs, both also against the sequential reference', SIM_NOTE,
             'fifo_stream/async_fifo_stream and the four parmap variants on identical generated inputs, durations, preprocessor failures and flags'),
+    'C03': ('exploration', 'property-based testing (Hypothesis): type-directed generated operator programs and inputs run under the deterministic scheduler (default schedule + short tapes); oracle: independent lazy reference interpreter (outputs, terminal exception, peek transcript), multiset for shuffle, pull counters for laziness', SIM_NOTE,
+            'generated programs (0-6 operators) x inputs x consumption modes against a reference interpreter; laziness via an instrumented source'),
     'C19': ('exploration', T_SIM + 'validity predicates over the (virtual time, batch) log: partition, sizes, exact deadline rule with stall budget 0', SIM_NOTE,
             'generated arrival-time sequences x batch_size x wait x marker kind x schedules; timing checked exactly in virtual time'),
 }
